@@ -51,7 +51,9 @@ BUDGET = {'quick': {'runs': 3000, 'wall': 300, 'chunk': 5},
           'thorough': {'runs': 300000, 'wall': 1200, 'chunk': 50}}
 ASSUMPTIONS = [
     'quick mode is specified to trust sizes (and the checksum of the last '
-    'increment) only',
+    'increment) only: a quick incremental taken after a pack rewrote bytes '
+    'in front of the last increment without changing what quick mode '
+    'looks at recovers to the old bytes there, and is accepted',
     'two backups within one simulated second collide by design '
     '(WouldOverwriteFiles): the clock is stepped >= 1 s between backups',
     'of the finer interleavings between repozo and the live process one '
@@ -168,6 +170,7 @@ class Repo:
         self.backups = []       # dict(date, bytes, model, opts)
         self.die_after = None
         self.pack_before_copy = None
+        self.rewritten_since_check = False
         self.trace = []
 
     def flag(self, o, x):
@@ -363,6 +366,14 @@ class Repo:
             # "No changes, nothing to do"
             if self.backups and self.backups[-1]['bytes'] == committed:
                 return
+            if op.get('quick') and self.rewritten_since_check and \
+                    self.backups and \
+                    len(self.backups[-1]['bytes']) == len(committed):
+                # quick mode looks at sizes and at the last increment only
+                # (stated assumption): a pack that rewrote earlier bytes
+                # and left the size as it was is invisible to it
+                self.trace.append('quick-blind-after-pack:')
+                return
             if not self.backups:
                 self.flag('backup-missing', 'first backup wrote no file')
                 return
@@ -372,9 +383,20 @@ class Repo:
                       % (argv[4:],))
             return
         real_date = data_new[0].split('.')[0]
+        full = data_new[0].endswith(('.fs', '.fsz'))
+        # a quick incremental on top of a file a pack has rewritten since
+        # the whole prefix was last compared (or on top of such a backup):
+        # quick mode cannot see what changed in front of the last increment
+        blind = bool(op.get('quick')) and not full and (
+            self.rewritten_since_check or
+            bool(self.backups and self.backups[-1].get('blind')))
+        if full or not op.get('quick'):
+            self.rewritten_since_check = False
+        if blind:
+            self.trace.append('quick-blind-after-pack:')
         self.backups.append({'date': real_date, 'bytes': committed,
                              'model': model, 'file': data_new[0],
-                             'full': data_new[0].endswith(('.fs', '.fsz'))})
+                             'full': full, 'blind': blind})
         if op.get('killold') and self.backups[-1]['full']:
             # only the newest full backup (and what follows) remains
             self.backups = self.backups[-1:]
@@ -412,6 +434,10 @@ class Repo:
             return
         with open(out, 'rb') as f:
             got = f.read()
+        if got != want['bytes'] and want.get('blind') and \
+                len(got) == len(want['bytes']):
+            # (stated assumption about quick mode, see backup())
+            return
         if got != want['bytes']:
             n = 0
             m = min(len(got), len(want['bytes']))
@@ -517,6 +543,9 @@ def run(case):
                 try:
                     out = d.execute(op)
                     R.trace.append(out.split(':')[0])
+                    if out == 'pack' and (d.last_pack or {}).get(
+                            'rewritten', True):
+                        R.rewritten_since_check = True
                 except Violation:
                     break
             if len(R.viol) >= 8:
